@@ -49,6 +49,13 @@ func (u *c06Use) contentVal() interp.Value {
 	return u.fixed
 }
 
+// fixedText creates a text use with a concrete content.
+func (p *c06Prog) fixedText(owner func() interp.Value, typ, content string) (*c06Use, string) {
+	u := &c06Use{owner: owner, typ: typ, fixed: content}
+	p.uses = append(p.uses, u)
+	return u, typ + "\"" + content + "\""
+}
+
 // text creates a text use and returns its source spelling.
 func (p *c06Prog) text(owner func() interp.Value, typ string, shareWith *c06Use) (*c06Use, string) {
 	u := &c06Use{owner: owner, typ: typ}
@@ -275,6 +282,16 @@ func c06Build(template string) (*c06Prog, bool) {
 		u3, t3 := p.text(o3, "", nil)
 		l3 := p.cmdWith(u3, "@"+t3)
 		w("mapscripts %s {\n  %s {\n    %s\n  }\n  %s [\n    VAR_A, 1 {\n      %s\n    }\n  ]\n  %s {\n    %s\n    %s\n  }\n}", m.Placeholder(), ty1.Placeholder(), l0, ty2.Placeholder(), l1, ty3.Placeholder(), l2, l3)
+	case "const-named-like-content":
+		// a constant whose name is the whole content of an inline string, and
+		// another string spelled like the constant's value: string contents are
+		// not constant use sites, the two texts stay different
+		s, o := script()
+		w("const HELLO = 5")
+		u0, t0 := p.fixedText(o, "", "HELLO")
+		u1, t1 := p.fixedText(o, "", "5")
+		u2, t2 := p.fixedText(o, "ascii", "HELLO")
+		w("script %s {\n  %s\n  %s\n  %s\n}", s.Placeholder(), p.cmdWith(u0, "@"+t0), p.cmdWith(u1, "@"+t1), p.cmdWith(u2, "@"+t2))
 	case "moves-two":
 		s, o := script()
 		u0, m0 := p.moves(o, 2)
@@ -545,7 +562,7 @@ func c06ClashCaseAt(kind string, userFirst bool) *Case {
 }
 
 var c06Templates = []string{"one", "second-arg", "two", "types", "same-content-different-type", "two-scripts", "control-flow", "switch",
-	"autovar-chain", "autovar-group", "poryswitch-selected", "poryswitch-fallback", "poryswitch-selected-without-text", "mapscripts", "mapscripts-moves", "moves-two", "moves-and-text"}
+	"autovar-chain", "autovar-group", "poryswitch-selected", "poryswitch-fallback", "poryswitch-selected-without-text", "mapscripts", "mapscripts-moves", "const-named-like-content", "moves-two", "moves-and-text"}
 
 // RunC06 is the check of property C06.
 func RunC06(env *Env, rep *Report) {
